@@ -140,7 +140,7 @@ func verifC11Feed(v *vrt.T, kn *InfluxQLNode, g *edge.ForwardReceiver, b *verifA
 // verifC11ResultPoint checks what every single-point result has in common (it exists, is
 // a point carrying the batch name, the group's tags and dimensions, and a field named by
 // as()) and returns the field value by kind and the result time.
-func verifC11ResultPoint(v *vrt.T, msg edge.Message, as string) (gi int64, isI bool, gf float64, isF bool, outT int64) {
+func verifC11ResultPoint(v *vrt.T, msg edge.Message, as string, observeFloat bool) (gi int64, isI bool, gf float64, isF bool, outT int64) {
 	v.Assert(msg != nil, "batch emits a result")
 	p, ok := msg.(edge.PointMessage)
 	v.Assert(ok, "result is a point")
@@ -158,7 +158,7 @@ func verifC11ResultPoint(v *vrt.T, msg edge.Message, as string) (gi int64, isI b
 	if isI {
 		v.Observe("ival", gi)
 	}
-	if isF {
+	if isF && observeFloat {
 		v.Observe("fval", gf)
 	}
 	return
@@ -174,7 +174,7 @@ func verifC11CheckBatch(v *vrt.T, fn int, b *verifAggBatch, msg edge.Message, as
 		v.Assert(msg == nil, "empty batch emits nothing")
 		return
 	}
-	gi, isI, gf, isF, outT := verifC11ResultPoint(v, msg, as)
+	gi, isI, gf, isF, outT := verifC11ResultPoint(v, msg, as, true)
 
 	// reference sums: Go wrap-around == InfluxQL int64 arithmetic; IEEE in arrival order
 	var isum int64
